@@ -17,3 +17,7 @@ mod c12_bucket;
 mod c12_host;
 #[cfg(kani)]
 mod selftest;
+#[cfg(kani)]
+mod c14_copy_source;
+#[cfg(kani)]
+mod c14_time;
